@@ -390,6 +390,22 @@ class Contract:
                 if not ends:
                     raise Unsupported("segment contract %s: end statement not found" % self.target)
                 stmts = stmts[starts[0]:ends[0]]
+            dk = getattr(self, "drop_kwarg", None)
+            if dk:
+                # argument abstraction (named in the evidence): the listed keyword arguments are removed from the calls of
+                # the verified text, so the callee sees its default for them
+                import ast as _a
+                import copy as _copy
+                stmts = [_copy.deepcopy(s_) for s_ in stmts]
+                self.dropped_kwargs = []
+                for s_ in stmts:
+                    for n_ in _a.walk(s_):
+                        if isinstance(n_, _a.Call):
+                            keep = [kw for kw in n_.keywords if kw.arg not in dk]
+                            if len(keep) != len(n_.keywords):
+                                self.dropped_kwargs += [kw.arg + "=" + " ".join(ast_unparse(kw.value).split())[:80]
+                                                        for kw in n_.keywords if kw.arg in dk]
+                                n_.keywords = keep
             drop = getattr(self, "drop_stmt", None)
             if drop is not None:
                 # statements left out of the verified text (named in the evidence): each must be an expression
@@ -695,6 +711,9 @@ def make_symbolic(eng, st, name, spec):
     if spec == "stream":
         r = fresh(name, Int)
         return SV("ref", r, cls="$Stream")
+    if spec.startswith("pbrep:"):
+        msg_, attr_ = spec[6:].split(".")
+        return SV("pbrep", x=(fresh(name + "_owner", Int), msg_, attr_))
     if spec.startswith("pb:"):
         return SV("ref", fresh(name, Int), cls=spec)
     if spec == "gen":
